@@ -467,6 +467,12 @@ func (rs *runState) failsLike(p *Program, v *violationT) (bool, *violationT) {
 			return true, &nv
 		}
 		return false, nil
+	case "hang":
+		if res.fail == nil || !res.fail.Hang {
+			return false, nil
+		}
+		nv.Stage = res.fail
+		return true, &nv
 	case "crash":
 		if res.fail == nil || res.fail.Stage != "run" {
 			return false, nil
